@@ -202,6 +202,7 @@ XRDom ==
   \cup { [MkXR(<< XrB("rrt") >>) EXCEPT !.sender = s] : s \in U32Set }
   \cup { MkXR(<< XrB(a), XrB(b) >>) : a \in XrKinds, b \in XrKinds }
   \cup { MkXR([i \in 1..7 |-> XrB(CHOOSE b \in XrKinds : XrBT(XrB(b)) = i)]) }
+  \cup { MkXR(<< [XrB("unk") EXCEPT !.bytes = Ramp(n, 1)], XrB("rrt") >>) : n \in {65528, 65532, 65536} }
 
 ---------------------------------------------------------------------------
 RawOf(pt, c, body) == [k |-> "RAW", bytes |-> << 128 + c, pt >> \o BE16(Len(body) \div 4) \o body]
@@ -232,7 +233,8 @@ Tiny(k) ==
     [] k = "REMB" -> { BaseREMB }
     [] k = "CCFB" -> { BaseCCFB }
     [] k = "TWCC" -> { MkTWCC(1, << Rl(1, 1) >>, << Dl(1, 7) >>, FALSE), MkTWCC(3, << Sv2(<< 1, 2, 0 >>) >>, << Dl(1, 1), Dl(2, 513) >>, FALSE) }
-    [] k = "XR" -> { MkXR(<< XrB("rrt") >>), MkXR(<< XrB("lrle"), XrB("unk") >>) }
+    [] k = "XR" -> { MkXR(<< XrB("rrt") >>), MkXR(<< XrB("lrle"), XrB("unk") >>), MkXR(<< XrB("ss") >>), MkXR(<< XrB("voip") >>),
+                     MkXR(<< XrB("dlrr"), XrB("prt") >>), MkXR(<< XrB("drle") >>) }
     [] k = "RAW" -> { RawOf(199, 3, Ramp(4, 50)) }
 TinyAll == UNION { Tiny(k) : k \in AllKinds }
 
@@ -266,7 +268,7 @@ LimitDom ==
 
 \* ---- values whose alternative encodings are enumerated (C04) --------------------
 VarDom ==
-  Vary(BaseREMB, "br", { [s |-> 0, e |-> e, f |-> f] : e \in {127, 128, 140, 146, 150, 170, 207}, f \in {0, 4194304, 1193024} })
+  Vary(BaseREMB, "br", { [s |-> 0, e |-> e, f |-> f] : e \in {127, 128, 129, 131, 140, 146, 150, 170, 207}, f \in {0, 4194304, 6291456, 1193024} })
   \cup { [BaseAPP EXCEPT !.data = Ramp(n, 32)] : n \in 0..5 }
   \cup { [BaseFIR EXCEPT !.fir = [i \in 1..n |-> Fir(<< i, 3, 2, i >>, i)]] : n \in 1..3 }
   \cup { [k |-> "BYE", srcs |-> [i \in 1..n |-> << i, 9, 8, i >>], reason |-> << >>] : n \in {0, 1, 2, 31} }
@@ -307,7 +309,7 @@ DispatchFrame(pt, c, body) == EncHdr(FALSE, c, pt, Len(body) \div 4) \o body
 
 \* ---- representative members for compound sequences (C11) ----------------------
 CpKinds ==
-  << BaseSR, BaseRR,
+  << BaseSR, BaseRR, [BaseRR EXCEPT !.reports = << >>],
      [k |-> "SDES", chunks |-> << Chunk1(1, << Item(1, 5) >>) >>],                              \* CNAME first
      [k |-> "SDES", chunks |-> << Chunk1(1, << Item(2, 2), Item(1, 3) >>) >>],                  \* CNAME as second item
      [k |-> "SDES", chunks |-> << Chunk1(1, << Item(2, 2) >>), Chunk1(2, << Item(1, 4) >>) >>], \* CNAME in second chunk
